@@ -320,6 +320,9 @@ TExpectReissued == IsEvent("ExpectReissued") /\ UNCHANGED vars /\ Projected(Line
 \* route origin objects due: every one of them is replaced by a new object
 \* (the payloads are the same: the projected publication is unchanged), the
 \* numbers of keys with such objects go up by exactly one, other keys stay
+KindsOfCa(c) ==
+    LET ks == {mark[j].kinds : j \in {i \in DOMAIN mark : mark[i].ca = c}}
+    IN  CHOOSE n \in ks : \A m \in ks : m <= n
 TExpectRenewed == IsEvent("ExpectRenewed") /\ UNCHANGED vars /\ Projected(Line.abs)
     /\ DOMAIN mark = DOMAIN Line.abs.keys
     /\ \A k \in DOMAIN mark :
@@ -328,7 +331,12 @@ TExpectRenewed == IsEvent("ExpectRenewed") /\ UNCHANGED vars /\ Projected(Line.a
           IN  /\ Cardinality(new) = Cardinality(old)
               /\ new \cap old = {}
               /\ SetOf(Line.abs.keys[k].objs) \ new = SetOf(mark[k].objs) \ old
-              /\ Line.abs.keys[k].mft = mark[k].mft + (IF old = {} THEN 0 ELSE 1)
+              \* (route origins, provider authorisations and router
+              \* certificates are renewed by one command each, and every
+              \* command that changes objects re-issues the manifest once)
+              \* -- for every key set of the class, also a staging or old
+              \* key's that has no such objects itself)
+              /\ Line.abs.keys[k].mft = mark[k].mft + KindsOfCa(mark[k].ca)
 
 \* the harness found nothing left to do after a full refresh round
 TSettled == IsEvent("Settled") /\ UNCHANGED vars /\ Projected(Line.abs)
